@@ -613,7 +613,14 @@ func ParseFile(path, text string, goFile bool) (*File, error) {
 		if goFile {
 			t := strings.TrimSpace(ln)
 			if strings.HasPrefix(t, "//@") {
-				lines = append(lines, strings.TrimPrefix(t, "//@"))
+				l := strings.TrimPrefix(t, "//@")
+				if strings.HasPrefix(strings.TrimSpace(l), "//") {
+					continue // comment inside the contract block
+				}
+				if i := strings.Index(l, " // "); i >= 0 && !strings.Contains(l[:i], "\"") {
+					l = l[:i]
+				}
+				lines = append(lines, l)
 			}
 			continue
 		}
